@@ -29,10 +29,13 @@ Kinds == {"add", "remove", "replace", "move", "copy", "test"}
 Ptrs == {"", "/", "/publicKey", "/publicKey/0", "/publicKey/0/id", "/publicKey/-",
          "/service", "/service/0", "/service/0/serviceEndpoint",
          "/publicKeyX", "/services", "/public~0Key", "/public~1Key",
-         "/other", "/other/a", "/alsoKnownAs/0"}
+         "/other", "/other/a", "/alsoKnownAs/0",
+         \* not JSON pointers at all (RFC 6901: a pointer is empty or starts with "/"); a lenient
+         \* implementation may read them as the pointer that follows the first "/"
+         "x/service", "#/publicKey/0", "publicKey"}
 
-UnderPK(p)  == p \in {"/publicKey", "/publicKey/0", "/publicKey/0/id", "/publicKey/-"}
-UnderSvc(p) == p \in {"/service", "/service/0", "/service/0/serviceEndpoint"}
+UnderPK(p)  == p \in {"/publicKey", "/publicKey/0", "/publicKey/0/id", "/publicKey/-", "#/publicKey/0"}
+UnderSvc(p) == p \in {"/service", "/service/0", "/service/0/serviceEndpoint", "x/service"}
 Root(p)     == p = ""
 Protected(p) == UnderPK(p) \/ UnderSvc(p) \/ Root(p)
 
